@@ -148,6 +148,7 @@ def third_party_isolation_rules(fb, ctx):
 
 def print_table_rules(fb, ctx):
     block_accessor_rules(fb, ctx)
+    overlap_rules(fb, ctx)
     for fn in (f"{T}::Biscuit::print_block_source", f"{T}::unverified::UnverifiedBiscuit::print_block_source"):
         b = fb.body(fn)
         h = fb.hir_of(b)
@@ -178,6 +179,24 @@ def block_accessor_rules(fb, ctx):
         guarded = lambda st: any(find_all(i["then"], lambda z: z is st) and find_all(i["cond"], lambda z: z.get("k") == "field" and z.get("name") == "external_key") and mcalls(i["cond"], r"Option::<T>::is_none$") for i in find_all(h["body"], lambda z: z.get("k") == "if"))
         bad = [st for st in stores if not guarded(st)]
         ctx.check(not bad, "SIBLING", f"{short}: a third-party block keeps its own symbol and key tables", f"SIBLING|{short}|tables", f"`block.symbols..` is overwritten at line {bad[0]['ln'] if bad else '?'} for every block: print_block_source then resolves a third-party block's `trusting <key>` against the token's key table and prints another key than the one the block trusts", f"{b['file']}:{bad[0]['ln'] if bad else b['line']}")
+
+
+def overlap_rules(fb, ctx):
+    """OVERLAP: a block may not redeclare a symbol of the default table or of the token's table. The tests are set-membership tests;
+    `binary_search` answers `Err` for members of a slice that is not sorted, and none of the symbol tables is kept sorted - any use
+    of it in the symbol / key table code is a wrong membership test."""
+    bs = []
+    for b in fb.bodies.values():
+        if b["crate"] == "biscuit_auth" and not b.get("exp") and re.search(r"datalog::symbol::|token::public_keys::", b["path"]):
+            bs += [(b, c) for c in fb.calls(b) if not c.indirect and re.search(r"binary_search(_by|_by_key)?$", c.callee)]
+    ctx.check(not bs, "OVERLAP", "symbol / key table lookups never use binary_search (no table is sorted)", "OVERLAP|binary_search", f"binary_search on an unsorted table in {[b_['path'].split('::')[-1] for b_, _ in bs]}: members are reported absent, so an overlapping block is accepted", f"{bs[0][0]['file']}:{bs[0][1].ln}" if bs else "biscuit-auth/src/datalog/symbol.rs")
+    fbody = fb.body_opt("<datalog::symbol::SymbolTable as std::convert::From<std::vec::Vec<std::string::String>>>::from") or next((b for b in fb.bodies.values() if b["crate"] == "biscuit_auth" and re.search(r"SymbolTable as std::convert::(Try)?From<std::vec::Vec<std::string::String>>>::(try_)?from$", b["path"])), None)
+    if fbody is not None:
+        names = {c.callee.split("::")[-1] for c in fb.calls(fbody) if not c.indirect}
+        for k_, cb in fb.bodies.items():
+            if cb.get("kind") == "Closure" and k_.startswith(fbody["key"] + "::"):
+                names |= {c.callee.split("::")[-1] for c in fb.calls(cb) if not c.indirect}
+        ctx.check(bool(names & {"is_disjoint", "intersection", "contains", "any", "is_subset"}), "OVERLAP", "SymbolTable::from tests the declared symbols against the default table by membership", "OVERLAP|from", f"no membership test among the calls {sorted(names)[:12]}", f"{fbody['file']}:{fbody['line']}")
 
 
 def build_split_rules(fb, ctx):
